@@ -85,3 +85,7 @@ package inproc
 //@ func (*inproc).Recv
 //@   before select#1 assert selwaits(p.closeq) && selwaits(p.peer.closeq) && selwaits(p.rq)
 //@   ensures !isnil(result1) ==> result1 == mangos.ErrClosed && isnil(result0)
+
+// ---- round 12: the scheme string ----
+//@ func (inprocTran).Scheme
+//@   ensures result == "inproc"
